@@ -32,6 +32,24 @@ func init() {
 	})
 }
 
+// shapes only C15 uses (the catalogue in lib/shapes is shared with C03)
+var extraShapes = []shapes.Shape{
+	{Name: "ignoredcallable", Src: `function main(){ log('ic0'); try { callbackIgnore(function(){ log('ic1'); for (var i=0;i<3;i++){ log('ic2') } }) } finally { log('finally-ic') } log('ic3'); return 'ic' }`},
+	{Name: "ignorednested", Src: `function main(){ log('in0'); runNestedIgnore("log('in1'); for (var i=0;i<3;i++){ log('in2') }"); log('in3'); for (var j=0;j<2;j++){ log('in4') } return 'in' }`},
+	{Name: "ignoredtwice", Src: `function main(){ callbackIgnore(function(){ callbackIgnore(function(){ log('it1'); log('it2') }); log('it3') }); log('it4'); return 'it' }`},
+}
+
+func shapeNames() []string {
+	var res []string
+	for _, s := range shapes.Catalogue {
+		res = append(res, s.Name)
+	}
+	for _, s := range extraShapes {
+		res = append(res, s.Name)
+	}
+	return res
+}
+
 type Case struct {
 	Part     string `json:"part"`
 	Shape    string `json:"shape,omitempty"`
@@ -89,6 +107,29 @@ func newEnv() *env {
 		if e.onNat != nil {
 			e.onNat()
 		}
+	}
+	// natives that do NOT propagate the error of a nested call (a host may ignore or replace it): the interrupt
+	// must then hit the enclosing script again, with the same value
+	e.R.Set("callbackIgnore", func(call goja.FunctionCall) goja.Value {
+		e.nats++
+		if e.onNat != nil {
+			e.onNat()
+		}
+		if fn, ok := goja.AssertFunction(call.Argument(0)); ok {
+			fn(goja.Undefined())
+		}
+		return goja.Undefined()
+	})
+	e.R.Set("runNestedIgnore", func(call goja.FunctionCall) goja.Value {
+		e.nats++
+		if e.onNat != nil {
+			e.onNat()
+		}
+		e.R.RunString(call.Argument(0).String())
+		return goja.Undefined()
+	})
+	for _, s := range extraShapes {
+		e.AddShape(s)
 	}
 	if _, err := e.R.RunString(probeSrc); err != nil {
 		panic(err)
@@ -393,9 +434,9 @@ func sweep(r *core.Run) bool {
 		shape, entry string
 	}
 	var jobs []job
-	for _, s := range shapes.Catalogue {
+	for _, name := range shapeNames() {
 		for _, en := range shapes.Entries {
-			jobs = append(jobs, job{s.Name, en})
+			jobs = append(jobs, job{name, en})
 		}
 	}
 	maxDist := make([]int, len(jobs))
@@ -460,7 +501,7 @@ func sweep(r *core.Run) bool {
 		}
 	}
 	r.Set("max_instructions_after_delivery", md)
-	r.Set("sweep", fmt.Sprintf("%d shapes x %d entry kinds x %d variants x every instruction boundary and native entry", len(shapes.Catalogue), len(shapes.Entries), len(variants)))
+	r.Set("sweep", fmt.Sprintf("%d shapes x %d entry kinds x %d variants x every instruction boundary and native entry", len(shapeNames()), len(shapes.Entries), len(variants)))
 	return ok
 }
 
